@@ -14,7 +14,7 @@ for r in rows:
     out.append("| %s | %s | %s | %s | %s | %s |" % (r[0], r[1], r[2].replace("|", "\\|"), "caught" if r[3] else "not caught", ", ".join(r[4]), r[5].replace("|", "\\|")))
 head = """# Seeded changes
 
-%d changes to xuesongtao/protoc-go-valid written by independent sub-agents (twelve rounds, two per property and round up to round 9 and in round 11, one in rounds 10 and 12; each agent saw
+%d changes to xuesongtao/protoc-go-valid written by independent sub-agents (thirteen rounds, two per property and round up to round 9 and in round 11, one in rounds 10, 12 and 13 - round 13 for ten properties only; each agent saw
 only the text of one property - from round 2 on also one-line descriptions of the earlier changes for that property, so as to
 look elsewhere - and its own scratch worktree of /repo, nothing from /verif).  Every change compiles, passes the pinned suite and
 comes with a demonstration that fails with the change and passes without it; all of that was re-confirmed in a scratch worktree
@@ -23,7 +23,7 @@ lines; the original is then kept as `patch.orig.diff`), `<id>/*_test.go.txt` the
 notes, `<id>/meta.json` what was run and which checks catch it (`tools/seeded-rerun.py` refreshes it, `tools/seeded-table.py`
 this file).  None of these changes is ever applied to /repo itself.
 
-Rounds: a/b = 1, c/d = 2, e/f = 3, g/h = 4, i/j = 5, k/l = 6, m/n = 7, o/p = 8, q/r = 9, s = 10, t/u = 11 (authors saw the property and their worktree only), v = 12.  %d of %d are caught by the check of the property they were written for.
+Rounds: a/b = 1, c/d = 2, e/f = 3, g/h = 4, i/j = 5, k/l = 6, m/n = 7, o/p = 8, q/r = 9, s = 10, t/u = 11 (authors saw the property and their worktree only), v = 12, w = 13.  %d of %d are caught by the check of the property they were written for.
 
 """ % (len(rows), sum(1 for r in rows if r[3]), len(rows))
 open(os.path.join(V, "seeded", "README.md"), "w", encoding="utf-8").write(head + "\n".join(out) + "\n")
